@@ -5,13 +5,15 @@ CONSTANTS
   EditFields = TRUE
   SetVals = {101, 102}
   SetSpells = {"U", "L"}
-  Ops = {"get", "set", "del", "first", "last", "before", "after", "sort", "insert", "append"}
+  Ops = {"get", "set", "del", "first", "last", "before", "after", "sort", "sortby", "insert", "append"}
   Emit = TRUE
 SPECIFICATION Spec
 INVARIANT NoEmptyPara
 INVARIANT ParasSeparated
 INVARIANT NoDupStaysUnique
 INVARIANT NoBlobDuplication
+INVARIANT SortByLaws
+INVARIANT DefaultSortIsByName
 PROPERTY ErrAtomic
 PROPERTY CommentsStay
 PROPERTY SepsKept
